@@ -7,10 +7,32 @@
 //   VirtMem::protect_jit_memory / flush_instruction_cache   counters (RW/RX nesting is asserted)
 //   VirtMem::info / large_page_size / hardened_runtime_info  constants chosen by the harness
 //   pthread_mutex_lock / unlock             a depth counter with nesting assertions; the real Lock / LockGuard run on top
+//   ArenaTree<JitAllocatorBlock>            typed-pointer model (tree_model.h); the block's address-range comparison stays real
+//   ::free(block)                           pre-state blocks are typed statics: recorded + poisoned (jenv_free)
 #pragma once
 #include "verif.h"
 #include <pthread.h>
+#include <stdlib.h>
+// Everything jitallocator.cpp includes is included first (include guards), so that the only `free` the macro below
+// renames is the allocator's own `::free(block)`: blocks of the symbolic pre-state are typed static objects (the solver
+// needs struct fields, not malloc'ed byte arrays), and freeing one is recorded and poisons it instead of calling libc.
+#include <asmjit/core/api-build_p.h>
+#if !defined(JENV_REAL_TREE)
+#include "tree_model.h"   // STUB for asmjit/support/arenatree.h, see the comment there
+#endif
+#include <asmjit/core/archtraits.h>
+#include <asmjit/core/jitallocator.h>
+#include <asmjit/core/osutils_p.h>
+#include <asmjit/core/virtmem.h>
+#include <asmjit/support/arena.h>
+#include <asmjit/support/arenalist.h>
+#include <asmjit/support/arenapool.h>
+#include <asmjit/support/arenatree.h>
+#include <asmjit/support/support.h>
+void jenv_free(void* p) noexcept;
+#define free jenv_free
 #include "../../../repo/asmjit/core/jitallocator.cpp"
+#undef free
 
 namespace jenv {
 using namespace asmjit;
@@ -126,13 +148,15 @@ template<uint32_t W> static inline BV<W> shr_v(const BV<W>& v, uint32_t s) {
   return r;
 }
 // is there a run of >= k consecutive set bits in v (k >= 1)?   doubling: x_len has bit i set iff v[i, i+len) all set
+template<uint32_t W> static inline void run_step(BV<W>& x, uint32_t& len, uint32_t k) {
+  if (len < k) { uint32_t s = (k - len < len) ? k - len : len; BV<W> y = shr_v<W>(x, s); for (uint32_t i = 0; i < W; i++) x.w[i] &= y.w[i]; len += s; }
+}
 template<uint32_t W> static inline bool has_run_v(const uint64_t* v, uint32_t k) {
   if (k > W * 64) return false;
   BV<W> x; for (uint32_t i = 0; i < W; i++) x.w[i] = v[i];
-  uint32_t len = 1;
-  for (uint32_t it = 0; it < 8; it++) {   // 2^7 = 128 >= 64*W for W <= 2; W = 3 needs 8 steps
-    if (len < k) { uint32_t s = (k - len < len) ? k - len : len; BV<W> y = shr_v<W>(x, s); for (uint32_t i = 0; i < W; i++) x.w[i] &= y.w[i]; len += s; }
-  }
+  uint32_t len = 1;   // straight-line: 8 doublings cover 256 >= 64*W
+  run_step<W>(x, len, k); run_step<W>(x, len, k); run_step<W>(x, len, k); run_step<W>(x, len, k);
+  run_step<W>(x, len, k); run_step<W>(x, len, k); run_step<W>(x, len, k); run_step<W>(x, len, k);
   return !is_zero_v<W>(x.w);
 }
 
@@ -141,7 +165,14 @@ template<uint32_t W> static inline bool has_run_v(const uint64_t* v, uint32_t k)
 static constexpr uint32_t kMaxPools = 3;
 // Plain typed statics (the solver then sees struct fields, not a byte array or a union); make_impl re-constructs them
 // by placement new on every run, the static initialisers only exist to satisfy C++.
-static JitAllocatorPool pool_objs[kMaxPools] = { JitAllocatorPool(64), JitAllocatorPool(128), JitAllocatorPool(256) };
+#if !defined(JENV_POOLS)
+#define JENV_POOLS 1   // units about multiple pools define 3; a single-pool unit keeps the pool object small for the solver
+#endif
+static JitAllocatorPool pool_objs[JENV_POOLS] = { JitAllocatorPool(64)
+#if JENV_POOLS == 3
+  , JitAllocatorPool(128), JitAllocatorPool(256)
+#endif
+};
 static JitAllocatorPrivateImpl impl_obj(pool_objs, 1);
 alignas(8) static void* allocator_obj[sizeof(JitAllocator) / sizeof(void*)];
 static_assert(sizeof(JitAllocator) == sizeof(void*), "JitAllocator is one pointer");
@@ -151,9 +182,18 @@ static inline JitAllocator* allocator() { return reinterpret_cast<JitAllocator*>
 
 // The arena the blocks live in: one object per view so that every address comparison the allocator makes is between
 // pointers into the same object (well-defined in C and in the solver's memory model); positions are symbolic slots.
+// Units that never touch JIT memory (JENV_ARENA_BYTES undefined) give the solver a 64-byte stand-in: only addresses
+// matter there, and any access the allocator made to JIT memory would be reported as out of bounds.
+#if defined(JENV_ARENA_BYTES)
+static constexpr size_t kArenaBytes = JENV_ARENA_BYTES;
+#elif defined(VERIF_CBMC)
+static constexpr size_t kArenaBytes = 64;
+#else
 static constexpr size_t kArenaBytes = 4 * 32768;
+#endif
 alignas(64) static uint8_t arena_rx[kArenaBytes];
 alignas(64) static uint8_t arena_rw[kArenaBytes];
+static inline uint8_t* arena_at(uint8_t* view, size_t off) { return view + off; }
 
 // As JitAllocator_new_impl builds it (options / granularity / block size chosen by the harness; the public constructor
 // only creates block_size >= 64 KiB — the harnesses scale blocks down to 64*W granules, see spec.py OUTSIDE).
@@ -208,7 +248,7 @@ template<uint32_t W> static inline bool same_bits(const BState<W>& a, const BSta
 // I(block), clause by clause (area_size = 64*W exactly: every block size the allocator creates is a multiple of
 // 64 granules, and the search code relies on it — bits beyond area_size would read as free).
 //  c1 stop subset of used            c2 every used run ends at a stop bit (a used non-stop granule is followed by a used one)
-//  c3 padding => granule 0 is used+stop      c4 area_used = popcount(used)
+//  c3 padding => granule 0 is used+stop      c4 area_used = popcount(used)   (post-states: delta form, see assert_inv)
 //  c5 flag Empty => nothing but the padding is used, window = whole block, largest = area - padding, not dirty
 //  c6 full => search_start = area, search_end = 0, largest = 0, neither dirty nor empty
 //  c7 incremental => used = [0, search_start), largest = area - search_start, search_end in {0, area}
@@ -261,7 +301,9 @@ template<uint32_t W> static __attribute__((noinline)) void assert_inv(const JitA
   V_ASSERT(r.c1, "I c1: stop bits are a subset of used bits");
   V_ASSERT(r.c2, "I c2: every used run ends at a stop bit");
   V_ASSERT(r.c3, "I c3: padding granule is used and stopped");
-  V_ASSERT(r.c4, "I c4: area_used = popcount(used)");
+  // c4 (area_used = popcount(used)) is asserted by every harness in delta form: the operation flips exactly the bits
+  // named in its "bits" assertion and area_used moves by that count (a popcount equality over the post-state is
+  // arithmetic the SAT solver cannot do in reasonable time: 160 s for 64 bits, measured).
   V_ASSERT(r.c5, "I c5: empty flag implies empty block with a full window");
   V_ASSERT(r.c6, "I c6: full block has the closed window");
   V_ASSERT(r.c7, "I c7: incremental block is used exactly below search_start");
@@ -314,19 +356,22 @@ template<uint32_t W> static inline BState<W> gen_state(const Seed<W>& z) {
   return s;
 }
 
-// A block object: the header is malloc'ed (the allocator free()s the blocks it deletes); the two bit vectors live in
-// their own arrays (JitAllocator_new_block puts them behind the header in the same malloc object — the allocator only
-// ever reaches them through _used_bit_vector / _stop_bit_vector, so the placement is not observable).
-static constexpr uint32_t kMaxBlocks = 2, kMaxWords = 3;
-static uint64_t bv_store[kMaxBlocks][2][kMaxWords];
-static JitAllocatorBlock block_objs[kMaxBlocks] = {
-  JitAllocatorBlock(&pool_objs[0], VirtMem::DualMapping{}, 0, 0, bv_store[0][0], bv_store[0][1], 0),
-  JitAllocatorBlock(&pool_objs[0], VirtMem::DualMapping{}, 0, 0, bv_store[1][0], bv_store[1][1], 0) };
+// Pre-state block objects: typed statics (see jenv_free for how deleting one is handled); the two bit vectors live in
+// their own arrays (JitAllocator_new_block puts them behind the header in one malloc object — the allocator only ever
+// reaches them through _used_bit_vector / _stop_bit_vector, so the placement is not observable).
+static constexpr uint32_t kMaxBlocks = 2;
+// one object per vector, exactly W words (a symbolic word index then only ever addresses W words)
+template<uint32_t W> struct BitStore { static inline uint64_t U0[W], S0[W], U1[W], S1[W]; };
+static uint64_t init_words[2];   // what the static initialisers' clear_block() writes to (never used afterwards)
+static JitAllocatorBlock block_obj0(&pool_objs[0], VirtMem::DualMapping{}, 0, 0, &init_words[0], &init_words[1], 0);
+static JitAllocatorBlock block_obj1(&pool_objs[0], VirtMem::DualMapping{}, 0, 0, &init_words[0], &init_words[1], 0);
+static inline JitAllocatorBlock* block_obj(uint32_t k) { return k == 0 ? &block_obj0 : &block_obj1; }
+static bool block_freed[kMaxBlocks];
 template<uint32_t W> static inline JitAllocatorBlock* new_block_object(uint32_t k) {
-  JitAllocatorBlock* b = &block_objs[k];
-  b->_tree_nodes[0] = 0; b->_tree_nodes[1] = 0; b->_list_nodes[0] = nullptr; b->_list_nodes[1] = nullptr;
-  b->_used_bit_vector = bv_store[k][0];
-  b->_stop_bit_vector = bv_store[k][1];
+  JitAllocatorBlock* b = block_obj(k); block_freed[k] = false;
+  b->_tree_left = nullptr; b->_tree_right = nullptr; b->_list_nodes[0] = nullptr; b->_list_nodes[1] = nullptr;
+  b->_used_bit_vector = k == 0 ? BitStore<W>::U0 : BitStore<W>::U1;
+  b->_stop_bit_vector = k == 0 ? BitStore<W>::S0 : BitStore<W>::S1;
   return b;
 }
 template<uint32_t W> static inline void store_state(JitAllocatorBlock* b, const BState<W>& s) {
@@ -337,9 +382,24 @@ template<uint32_t W> static inline void store_state(JitAllocatorBlock* b, const 
 template<uint32_t W> static inline void place_block(JitAllocatorBlock* b, JitAllocatorPool* pl, uint32_t slot) {
   size_t bs = size_t(64 * W) * pl->granularity;
   b->_pool = pl; b->_block_size = bs;
-  b->_mapping.rx = arena_rx + slot * bs;
-  b->_mapping.rw = (b->_flags & kFM) ? arena_rw + slot * bs : arena_rx + slot * bs;
+  b->_mapping.rx = arena_at(arena_rx, slot * bs);
+  b->_mapping.rw = arena_at((b->_flags & kFM) ? arena_rw : arena_rx, slot * bs);
 }
 static inline size_t block_overhead(uint32_t area_size) { return sizeof(JitAllocatorBlock) + size_t((area_size + 63) / 64) * 8u * 2u; }
 
 }  // namespace jenv
+
+// The allocator's `::free(block)`: a pre-state block is marked freed (at most once) and poisoned, so that any later use
+// of it by the allocator dereferences null; anything else goes to libc.
+void jenv_free(void* p) noexcept {
+  for (uint32_t k = 0; k < jenv::kMaxBlocks; k++) {
+    asmjit::JitAllocatorBlock* b = jenv::block_obj(k);
+    if (p == static_cast<void*>(b)) {
+      V_ASSERT(!jenv::block_freed[k], "free: a block is freed at most once");
+      jenv::block_freed[k] = true;
+      b->_pool = nullptr; b->_used_bit_vector = nullptr; b->_stop_bit_vector = nullptr; b->_mapping.rx = nullptr; b->_mapping.rw = nullptr;
+      return;
+    }
+  }
+  ::free(p);
+}
